@@ -121,6 +121,8 @@ def run(ctx):
     r3_length(ctx)
     r4_order(ctx)
     r5_tail_windows(ctx)
+    r6_moving_average(ctx)
+    r7_view_owner(ctx)
 
 
 def _table_of(expr):
@@ -282,7 +284,52 @@ def r5_tail_windows(ctx):
     ctx.ob("C18.R5", RES, "Result._grouped_ys", lasts[0] if lasts else gy, "the final value is the last y (span 1), the mean of the last span ys, or the mean of all ys", ok, stmt="final average")
 
 
+def r6_moving_average(ctx):
+    from ..cfg import CFG
+    from ..dataflow import reaching_defs, PARAM
+    ctx.rule("C18.R6", "moving_average: a window of one value is that value for every weighting (the span == 1 arm returns the values exactly as given: "
+                       "only the parameter's own definition reaches that return)")
+    fn = ctx.fn(RES, "moving_average")
+    V, SP, W = [a.arg for a in fn.args.args][:3]
+    g = CFG(fn)
+    rd = reaching_defs(g, [V, SP, W])
+    n = 0
+    for nd in g.nodes:
+        if nd.kind == "stmt" and isinstance(nd.ast, ast.Return) and nd.id in rd:
+            gs = [(unparse(t), pol) for t, pol in guards_of(nd.ast, fn)]
+            if (f"{SP} == 1", True) in gs:
+                n += 1
+                ok = isinstance(nd.ast.value, ast.Name) and nd.ast.value.id == V and rd[nd.id].get(V) == frozenset([PARAM])
+                ctx.ob("C18.R6", RES, "moving_average", nd.ast, "span == 1 returns the values as given (un-weighted, un-accumulated)", ok,
+                       detail={"definitions reaching": "parameter only" if ok else "re-bound before the return"}, stmt="span 1 returns values")
+    ctx.floor("C18.R6", "span == 1 return in moving_average", n, 1)
+
+
+def r7_view_owner(ctx):
+    ctx.rule("C18.R7", "row numbers are applied to the table they were computed on: in View(T._data, rows) the rows come from <R>._remove(...) of the same "
+                       "Result object R whose interactions table T is")
+    cls = ctx.model.cls(RES, "Result")
+    n = 0
+    for mname, fn in sorted(cls.methods.items()):
+        for v in [c for c in ast.walk(fn) if isinstance(c, ast.Call) and call_name(c) == "View" and len(c.args) == 2]:
+            a0, a1 = v.args
+            if not (isinstance(a0, ast.Attribute) and a0.attr == "_data" and isinstance(a0.value, ast.Name)):
+                continue
+            t_owner = {unparse(x.value) for x in assigned_value(fn, a0.value.id) if isinstance(x, ast.Attribute) and x.attr in ("interactions", "_interactions")}
+            sel = [a1] if isinstance(a1, ast.Call) else (assigned_value(fn, a1.id) if isinstance(a1, ast.Name) else [])
+            s_owner = {unparse(x.func.value) for x in sel if isinstance(x, ast.Call) and call_tail(x) == "_remove" and isinstance(x.func, ast.Attribute)}
+            if not s_owner:
+                continue
+            n += 1
+            ctx.touch(RES, f"Result.{mname}")
+            ctx.ob("C18.R7", RES, f"Result.{mname}", v, "the removed-row numbers and the table they are applied to belong to the same Result", len(t_owner) == 1 and t_owner == s_owner,
+                   detail={"table of": sorted(t_owner), "rows computed by": sorted(s_owner)})
+    ctx.floor("C18.R7", "View(...) over rows from _remove", n, 3)
+
+
 CONTROLS = [
+    ("rows of the unfiltered result applied to the filtered table", RES, M.replace_expr("Result.filter_best", "only_finished._remove(to_drop)", "self._remove(to_drop)"), "C18.R7"),
+    ("weights applied before the span-1 shortcut", RES, M.insert_before("moving_average", lambda st: isinstance(st, ast.If) and "'exp'" in ast.unparse(st.test), "if weights and weights != 'exp': values = list(map(mul, values, weights))"), "C18.R6"),
     ("window start wraps", RES, M.replace_expr("Result._grouped_ys", "Y[-span:]", "Y[len(Y) - span:]"), "C18.R5"),
     ("learners by environment id", RES, M.replace_expr("Result._group_p", "learners.where(learner_id=l_keep)", "learners.where(environment_id=l_keep)"), "C18.R1"),
     ("swapped unpack", RES, M.replace_expr("Result._group_p", "(e_keep, l_keep, v_keep)", "(l_keep, e_keep, v_keep)"), "C18.R1"),
